@@ -58,7 +58,7 @@ func (a ConstInt8) ConvertConstScalar(t ScalarType) ConstScalar {
   case ConstInt8Type:
     return a
   default:
-    return NewConstScalar(t, a.GetFloat64())
+    return convertConstScalar(a, t)
   }
 }
 /* stringer
